@@ -287,7 +287,9 @@ pub fn run_hostile(tr: &mut Trace, run: u64, seed: u64, log_steps: bool) -> Host
             // limited by the frame size and not by the budget)
             let credit = p.ep[e].hc.as_ref().map(|h| h.verif_snapshot().flush_alloc).unwrap_or(0);
             if flood && fw >= 64 && ((credit >= 1472 && r.chance(1, 4)) || r.chance(1, 40)) {
-                let n = r.range(170, 700);
+                // 170..700 groups are two to five ack frames; every third flood is large enough (up to sixteen frames) to
+                // exceed ceiling x RTT + one frame for any ceiling / RTT pair that lets a full frame of credit build up
+                let n = if r.chance(1, 3) { r.range(1500, 2500) } else { r.range(170, 700) };
                 let stride = (*r.pick(&[32u32, 33, 40, 63])).min(fw);
                 for _ in 0..n {
                     if p.dead {
